@@ -39,7 +39,9 @@ Definition wiring_as_modelled : Prop :=
   c04_outbound_addpeer_args = [[bos "streamlibp2p.Conn()"; bos "p"]] /\
   c04_inbound_notify_args = [[bos "*peer"]] /\
   c04_inbound_closes_peer = true /\ c04_outbound_closes_peer = true /\
-  c04_verifyreq_provider_const = true.
+  c04_verifyreq_provider_const = true /\
+  (* Connect: isConnected(addrInfo.ID) short cut at the head, getPeer(addrInfo.ID) after addPeer *)
+  c04_outbound_shortcut = true /\ c04_outbound_getpeer = true.
 Lemma wiring_fact : wiring_as_modelled.
 Proof. repeat split; reflexivity. Qed.
 
@@ -330,7 +332,7 @@ Lemma outbound_refuse_effects add c :
   let eff := connect add (Refuse c) in
   In EClosePeer eff /\ In (EReturnErr c) eff /\ forallb (fun e => negb (announces e)) eff = true.
 Proof.
-  unfold connect. cbv zeta. repeat split.
+  unfold connect, connect_tail. cbv zeta. repeat split.
   - left; reflexivity.
   - right. apply in_or_app. right. left. reflexivity.
   - cbn [forallb announces negb andb]. rewrite forallb_app, block_effects_no_announce. reflexivity.
@@ -386,6 +388,49 @@ Proof.
   exists ClosedAbsent_v0, [1%N], 2. vm_compute. split; [left; reflexivity|].
   intros [H|[]]. discriminate H.
 Qed.
+
+(* Connect tells its caller "connected (A, T)" only when the remote is in the peer registry at that
+   point: registered by this very call, or found there by getPeer *)
+Lemma outbound_tail_refuse_effects add known c :
+  let eff := connect_tail add known (Refuse c) in
+  In EClosePeer eff /\ In (EReturnErr c) eff /\ forallb (fun e => negb (announces e)) eff = true.
+Proof. exact (outbound_refuse_effects add c). Qed.
+
+Lemma outbound_told_implies_known add known r A T :
+  In (EReturnPeer A T) (connect_tail add known r) ->
+  r = Enrol A T /\ known_after add known = true /\
+  (add = Added -> connect_tail add known r = [ERegister A T; EReturnPeer A T]) /\
+  (add = NotAdded -> connect_tail add known r = [EReturnPeer A T]).
+Proof.
+  destruct r as [a t|c].
+  - destruct add, known; cbn [connect_tail In known_after]; intros H;
+      repeat (destruct H as [H|H]; try discriminate H; try contradiction H);
+      inversion H; subst; repeat split; try reflexivity; intros Q; discriminate Q.
+  - intros I. destruct (outbound_tail_refuse_effects add known c) as (_ & _ & F).
+    pose proof (forallb_not_in _ _ _ F I) as N. discriminate N.
+Qed.
+
+Lemma outbound_register_implies add known r A T :
+  In (ERegister A T) (connect_tail add known r) ->
+  r = Enrol A T /\ add = Added /\ connect_tail add known r = [ERegister A T; EReturnPeer A T].
+Proof.
+  destruct r as [a t|c].
+  - destruct add, known; cbn [connect_tail In]; intros H;
+      repeat (destruct H as [H|H]; try discriminate H; try contradiction H);
+      inversion H; subst; repeat split; reflexivity.
+  - intros I. destruct (outbound_tail_refuse_effects add known c) as (_ & _ & F).
+    pose proof (forallb_not_in _ _ _ F I) as N. discriminate N.
+Qed.
+
+Lemma outbound_gone add known a t :
+  known_after add known = false -> connect_tail add known (Enrol a t) = [EReturnNotFound].
+Proof. destruct add, known; cbn; intros H; try discriminate H; reflexivity. Qed.
+
+(* the wrapper before commit db8f6a6 reported a peer that is not in the registry *)
+Lemma connect_tail_v1_refuted :
+  exists add known a t, In (EReturnPeer a t) (connect_tail_v1 add known (Enrol a t)) /\
+                        known_after add known = false.
+Proof. exists NotAdded, false, [1%N], 2. vm_compute. split; [left|]; reflexivity. Qed.
 
 (* ---- the composed statements ------------------------------------------------------------------------------- *)
 Theorem responder_sound c o wfail script has_notifier add A T :
@@ -691,4 +736,87 @@ Proof.
       destruct E as (role & token & sig & ea & er & f1 & f2 & rest & _ & _ & _ & _ & _ & (V1 & V2 & V3) & T & _).
       repeat split; auto. apply V3, role_of_string_provider. symmetry. exact T. }
   repeat split; auto. exists (run_step c s). rewrite nth_error_map, S. auto.
+Qed.
+
+(* ---- one remote over time --------------------------------------------------------------------------------- *)
+Lemma node_run_snoc c evs ev : node_run c (evs ++ [ev]) = fst (node_step c (node_run c evs) ev).
+Proof. unfold node_run. rewrite fold_left_app. reflexivity. Qed.
+
+Lemma backed_now c evs ev A T : event_proves c ev A T -> backed c (evs ++ [ev]) A T.
+Proof. intros H. exists evs, ev, []. repeat split; auto. Qed.
+
+Lemma backed_snoc c evs ev A T : backed c evs A T -> ev <> EvDisconnect -> backed c (evs ++ [ev]) A T.
+Proof.
+  intros (b & e0 & a & -> & P & N) D. exists b, e0, (a ++ [ev]). repeat split; auto.
+  - rewrite <- app_assoc. reflexivity.
+  - intros I. apply in_app_or in I. destruct I as [I|[I|[]]]; [auto | symmetry in I; auto].
+Qed.
+
+Lemma entry_after_cases entry add r A T :
+  entry_after entry add r = Some (A, T) -> (r = Enrol A T /\ add = Added) \/ entry = Some (A, T).
+Proof.
+  unfold entry_after. destruct r as [a t|c]; [|auto]. destruct add; auto.
+  intros H. inversion H. subst. auto.
+Qed.
+
+(* invariant: a registry entry (A, T) is backed by an admissible handshake of the current connection period *)
+Theorem node_entry_backed c evs A T : node_run c evs = Some (A, T) -> backed c evs A T.
+Proof.
+  revert A T. induction evs as [|ev evs IH] using rev_ind; intros A T H; [discriminate H|].
+  rewrite node_run_snoc in H. destruct ev as [o wf sc hn cl|o wf sc cl|]; cbn [node_step fst] in H.
+  - apply entry_after_cases in H. destruct H as [[R _]|E].
+    + apply backed_now. cbn. apply handle_enrol_iff. exact R.
+    + apply backed_snoc; [apply IH; exact E | discriminate].
+  - destruct (node_run c evs) as [[a t]|] eqn:S; cbn [fst] in H.
+    + apply backed_snoc; [apply IH; exact H | discriminate].
+    + apply entry_after_cases in H. destruct H as [[R _]|E]; [|discriminate E].
+      apply backed_now. cbn. apply handshake_enrol_iff. exact R.
+  - discriminate H.
+Qed.
+
+(* every announcement in every history: Register and Notify only by an event whose own handshake is
+   admissible with the oracle answers of that event; a peer is returned by Connect either for the same
+   reason or by the short cut, and then it is the registered record, backed by an earlier admissible
+   handshake since which the remote was not disconnected *)
+Theorem node_announcements c evs ev e A T :
+  In e (snd (node_step c (node_run c evs) ev)) ->
+  (e = ERegister A T \/ e = ENotify A T -> event_proves c ev A T /\ node_run c evs = None) /\
+  (e = EReturnPeer A T ->
+     (event_proves c ev A T /\ node_run c evs = None /\ node_run c (evs ++ [ev]) = Some (A, T)) \/
+     (exists o wf sc cl, ev = EvConnect o wf sc cl /\ node_run c evs = Some (A, T) /\ backed c evs A T /\
+                         snd (node_step c (node_run c evs) ev) = [EReturnPeer A T])).
+Proof.
+  intros I. rewrite node_run_snoc.
+  destruct ev as [o wf sc hn cl|o wf sc cl|]; cbn [node_step snd fst] in *.
+  - split.
+    + intros Q.
+      assert (announces e = true) as An by (destruct Q as [-> | ->]; reflexivity).
+      destruct (inbound_announce_only_enrolled _ _ _ _ I An) as (a & t & R & Ee).
+      assert (a = A /\ t = T) as [-> ->] by (destruct Q as [-> | ->]; destruct Ee as [Ee|Ee]; inversion Ee; auto).
+      rewrite R in I. unfold add_outcome in I.
+      destruct (node_run c evs) as [[a0 t0]|]; cbn in I.
+      * destruct I as [I|[]]. subst e. destruct Q as [Q|Q]; discriminate Q.
+      * split; [|reflexivity]. cbn. apply handle_enrol_iff. exact R.
+    + intros ->. exfalso.
+      destruct (inbound_announce_only_enrolled _ _ _ _ I eq_refl) as (a & t & _ & [Ee|Ee]); discriminate Ee.
+  - destruct (node_run c evs) as [[a0 t0]|] eqn:S; cbn [snd fst] in *.
+    + destruct I as [I|[]]. subst e. split.
+      * intros [Q|Q]; discriminate Q.
+      * intros Q. inversion Q. subst. right. exists o, wf, sc, cl. repeat split; auto.
+        apply node_entry_backed. exact S.
+    + split.
+      * intros [Q|Q]; subst e.
+        -- apply outbound_register_implies in I. destruct I as (R & _ & _).
+           split; [|reflexivity]. cbn. apply handshake_enrol_iff. exact R.
+        -- exfalso. unfold add_outcome in I.
+           destruct (res (handshake c o wf sc)) as [a t|k] eqn:R.
+           ++ destruct cl; cbn in I; intuition discriminate.
+           ++ destruct (outbound_tail_refuse_effects (fst (if cl then (NotAdded, false) else (Added, true)))
+                          (snd (if cl then (NotAdded, false) else (Added, true))) k) as (_ & _ & F).
+              pose proof (forallb_not_in _ _ _ F I) as N. discriminate N.
+      * intros ->. left. pose proof I as I'. apply outbound_told_implies_known in I'.
+        destruct I' as (R & K & _ & _).
+        unfold add_outcome in *. destruct cl; cbn [fst snd known_after] in *; [discriminate K|].
+        repeat split; [cbn; apply handshake_enrol_iff; exact R|]. rewrite R. reflexivity.
+  - destruct I.
 Qed.
